@@ -1,8 +1,889 @@
-//! C16 — not built yet.
-use crate::util::*;
+//! C16 — emulation is deterministic and independent of how the host drives it.
+//!
+//! Main tie (metamorphic, on the real code): the same scenario under different drivings must give
+//! identical hashes of registers, memory, both frame buffers, frame clock, and — where both runs
+//! drain the queue at the same boundaries — the audio stream, at equal completed-frame counts.
+//! The reference driving is "one frame per call, FrameCount(1), whole in-memory asset".
+//! Model ties: the loop logic of `emulate_frames` against the Lean loop model on a timing-exact toy
+//! machine; `read_exact`/`seek` of every asset implementation against the Lean asset model.
+mod drive;
+mod env;
+mod scn;
+mod small;
 
-pub fn run(_o: &Opts) -> Report {
+use crate::util::*;
+use drive::*;
+use env::Deliv;
+use scn::*;
+use small::*;
+use std::collections::HashMap;
+
+struct Refs<'a> {
+    scn: &'a Scenario,
+    cache: HashMap<(usize, u8, u8), std::rc::Rc<RunOut>>,
+    pub runs: u64,
+}
+
+fn drain_id(d: Drain) -> u8 {
+    match d {
+        Drain::Every => 0,
+        Drain::Every3 => 1,
+        Drain::Never => 2,
+        Drain::Returns => 3,
+    }
+}
+
+impl<'a> Refs<'a> {
+    fn get(&mut self, frames: usize, drain: Drain, mix: u8) -> std::rc::Rc<RunOut> {
+        let key = (frames, drain_id(drain), mix);
+        if let Some(r) = self.cache.get(&key) {
+            return r.clone();
+        }
+        let mut d = Driving::reference(frames, drain);
+        d.mix = mix;
+        let r = std::rc::Rc::new(run_driving(self.scn, &d));
+        self.runs += 1;
+        self.cache.insert(key, r.clone());
+        r
+    }
+    /// the reference for the state (always: one frame per call, drained every frame, default mixer) and, if one of
+    /// the reference drivings drains at exactly the same boundaries with the same mixer, the reference for the audio
+    fn for_driving(&mut self, d: &Driving) -> (std::rc::Rc<RunOut>, Option<std::rc::Rc<RunOut>>) {
+        let frames = d.frames();
+        let base = self.get(frames, Drain::Every, 0);
+        if let Some((ds, mix)) = d.audio_key() {
+            for pol in [Drain::Every, Drain::Every3, Drain::Never] {
+                let mut rd = Driving::reference(frames, pol);
+                rd.mix = mix;
+                rd.seed = d.seed;
+                if rd == *d {
+                    // the driving *is* this reference driving: nothing to compare its audio with
+                    return (base, None);
+                }
+                if rd.drain_set() == ds {
+                    return (base, Some(self.get(frames, pol, mix)));
+                }
+            }
+        }
+        (base, None)
+    }
+}
+
+struct Diff {
+    k: usize,
+    component: &'static str,
+    implementation: String,
+    expected: String,
+}
+
+fn compare(reference: &RunOut, x: &RunOut, audio: bool) -> Option<Diff> {
+    if reference.load != x.load {
+        return Some(Diff { k: 0, component: "load", implementation: x.load.clone(), expected: reference.load.clone() });
+    }
+    for o in &x.obs {
+        let r = match reference.obs.iter().find(|r| r.k == o.k) {
+            Some(r) => r,
+            None => continue,
+        };
+        let mut fields: Vec<(&'static str, u64, u64)> = vec![
+            ("steps", o.steps, r.steps),
+            ("clocks", o.clocks as u64, r.clocks as u64),
+            ("regs", o.regs, r.regs),
+            ("ram", o.ram, r.ram),
+            ("banks", o.banks, r.banks),
+            ("screen", o.screen, r.screen),
+            ("border", o.border, r.border),
+            ("misc", o.misc, r.misc),
+        ];
+        if audio {
+            fields.push(("audio", o.audio ^ o.audio_n, r.audio ^ r.audio_n));
+        }
+        for (name, a, b) in fields {
+            if a != b {
+                return Some(Diff { k: o.k, component: name, implementation: format!("{}={:x} after {} frames", name, a, o.k), expected: format!("{}={:x} after {} frames", name, b, o.k) });
+            }
+        }
+    }
+    if x.error != reference.error {
+        return Some(Diff {
+            k: x.obs.len(),
+            component: "error",
+            implementation: format!("{:?} {}", x.error, x.api.first().cloned().unwrap_or_default()),
+            expected: format!("{:?}", reference.error),
+        });
+    }
+    if !x.api.is_empty() {
+        return Some(Diff { k: x.obs.len(), component: "api", implementation: x.api[0].clone(), expected: "stop reasons, frame counter and duration as documented".into() });
+    }
+    if x.obs.len() == 0 && reference.obs.len() != 0 && x.error.is_none() {
+        return Some(Diff { k: 0, component: "error", implementation: "no observation".into(), expected: "observations".into() });
+    }
+    if x.obs.last().map(|o| o.k) == reference.obs.last().map(|o| o.k) && x.final_sna != reference.final_sna {
+        return Some(Diff { k: x.obs.len(), component: "final-sna", implementation: format!("{:x}", x.final_sna), expected: format!("{:x}", reference.final_sna) });
+    }
+    None
+}
+
+fn compare_audio(reference: &RunOut, x: &RunOut) -> Option<Diff> {
+    for o in &x.obs {
+        if let Some(r) = reference.obs.iter().find(|r| r.k == o.k) {
+            if (o.audio, o.audio_n) != (r.audio, r.audio_n) {
+                return Some(Diff {
+                    k: o.k,
+                    component: "audio",
+                    implementation: format!("{} samples, hash {:x} after {} frames", o.audio_n, o.audio, o.k),
+                    expected: format!("{} samples, hash {:x} after {} frames", r.audio_n, r.audio, o.k),
+                });
+            }
+        }
+    }
+    None
+}
+
+fn truncate(d: &Driving, k: usize) -> Driving {
+    let mut t = d.clone();
+    t.part = d.part.iter().copied().filter(|&x| x < k).collect();
+    t.part.push(k);
+    t
+}
+
+/// candidates one step closer to the reference driving
+fn simpler(d: &Driving) -> Vec<Driving> {
+    let mut v = vec![];
+    let f = d.frames();
+    if f > 1 {
+        v.push(truncate(d, f / 2));
+        v.push(truncate(d, f - 1));
+    }
+    let mut push = |m: &dyn Fn(&mut Driving)| {
+        let mut c = d.clone();
+        m(&mut c);
+        if c != *d {
+            v.push(c);
+        }
+    };
+    push(&|c| c.deliv = Deliv::Whole);
+    push(&|c| c.mix = 0);
+    push(&|c| {
+        c.sound = true;
+        c.sound_toggle = false
+    });
+    push(&|c| c.step = StepKind::None);
+    push(&|c| c.bps.clear());
+    push(&|c| c.mode = ModeKind::Fc);
+    push(&|c| c.part = (1..=f).collect());
+    push(&|c| c.drain = Drain::Never);
+    push(&|c| c.drain = Drain::Every);
+    push(&|c| c.part = vec![f]);
+    if d.bps.len() > 1 {
+        for a in &d.bps {
+            let a = *a;
+            push(&move |c| c.bps = vec![a]);
+        }
+    }
+    if let Deliv::Short { k, z, seed } = d.deliv {
+        if k > 1 {
+            push(&move |c| c.deliv = Deliv::Short { k: 1, z, seed });
+        }
+        if z {
+            push(&move |c| c.deliv = Deliv::Short { k, z: false, seed });
+        }
+    }
+    v
+}
+
+fn check_pair(scn: &Scenario, refs: &mut Refs, d: &Driving) -> (Option<Diff>, RunOut, bool) {
+    let x = run_driving(scn, d);
+    let (base, aref) = refs.for_driving(d);
+    let audio = aref.is_some();
+    let mut diff = compare(&base, &x, false);
+    if diff.is_none() {
+        if let Some(ar) = &aref {
+            diff = compare_audio(ar, &x);
+        }
+    }
+    if let Some(df) = diff.as_mut() {
+        if df.component == "error" || df.component == "api" {
+            // the failing call is the one heading for the first boundary that was not observed
+            df.k = d.part.get(x.obs.len()).copied().unwrap_or(d.frames());
+        }
+    }
+    (diff, x, audio)
+}
+
+fn report_violation(rep: &mut Report, scn: &Scenario, d: &Driving, diff: &Diff, refname: &str) {
+    let key = format!("C16/{}/{}-vs-{}/{}", scn.name, refname, d.class(), diff.component);
+    rep.violation(Violation {
+        kind: Kind::SpecViolated,
+        key,
+        what: format!(
+            "scenario {} driven as [{}] differs from the reference driving (one frame per call) in '{}' after {} frames",
+            scn.name,
+            d.text(),
+            diff.component,
+            diff.k
+        ),
+        correspondence: "metamorphic equation of C16 (slicing_irrelevant / mixer_noninterference / loader_chunking_independent on the real code)".into(),
+        case: J::obj(vec![("text", J::s(format!("meta scn={} {}", scn.name, d.text())))]),
+        implementation: diff.implementation.clone(),
+        expected: diff.expected.clone(),
+    });
+}
+
+fn shrink(scn: &Scenario, refs: &mut Refs, d: Driving, diff: Diff) -> (Driving, Diff) {
+    let mut best = d;
+    let mut bdiff = diff;
+    let mut budget = 30;
+    loop {
+        let mut progressed = false;
+        // no more frames than needed (every candidate is re-run on the real code)
+        let mut cands: Vec<Driving> = vec![];
+        if bdiff.k >= 1 && bdiff.k < best.frames() {
+            cands.push(truncate(&best, bdiff.k));
+        }
+        cands.extend(simpler(&best));
+        for c in cands {
+            if budget == 0 {
+                return (best, bdiff);
+            }
+            budget -= 1;
+            if let (Some(df), _, _) = check_pair(scn, refs, &c) {
+                best = c;
+                bdiff = df;
+                progressed = true;
+                break;
+            }
+        }
+        if !progressed {
+            return (best, bdiff);
+        }
+    }
+}
+
+fn partition(kind: u8, frames: usize, cuts: &[usize], r: &mut Rng) -> Vec<usize> {
+    let mut p: Vec<usize> = match kind {
+        0 => (1..=frames).collect(),
+        1 => {
+            let mut v = vec![];
+            let mut k = 0;
+            while k < frames {
+                k += r.range(1, 7) as usize;
+                v.push(k.min(frames));
+            }
+            v
+        }
+        2 => (1..=frames).filter(|k| k % 3 == 0).collect(),
+        _ => vec![],
+    };
+    p.extend(cuts.iter().copied().filter(|&c| c >= 1 && c <= frames));
+    p.push(frames);
+    p.sort();
+    p.dedup();
+    p
+}
+
+/// the i-th driving of a scenario: templates cycle so that every class is reached in every run
+fn gen_driving(scn: &Scenario, frames: usize, i: usize, r: &mut Rng) -> Driving {
+    let cuts: Vec<usize> = scn.events.iter().map(|e| e.0).collect();
+    let mut d = Driving::reference(frames, Drain::Every);
+    d.seed = r.next() >> 16;
+    let has_files = scn.sna.is_some() || scn.tap.is_some();
+    let nt = if has_files { 26 } else { 18 };
+    let win = |r: &mut Rng, w: usize| -> (usize, usize) {
+        let a = r.below(frames as u64) as usize;
+        (a, (a + w).min(frames))
+    };
+    let some_bps = |r: &mut Rng| -> Vec<u16> {
+        let n = r.range(1, 3) as usize;
+        (0..n).map(|_| *r.pick(&scn.bp_addrs)).collect()
+    };
+    match i % nt {
+        0 => d.part = partition(1, frames, &cuts, r),
+        1 => d.mode = ModeKind::Max,
+        2 => {
+            d.mode = ModeKind::Max;
+            d.part = partition(1, frames, &cuts, r);
+        }
+        3 => {
+            d.mode = ModeKind::Mixed;
+            d.part = partition(1, frames, &cuts, r);
+        }
+        4 => {
+            d.bps = some_bps(r);
+            d.bp_win = win(r, 3);
+        }
+        5 => {
+            d.part = partition(1, frames, &cuts, r);
+            d.bps = some_bps(r);
+            d.bp_win = win(r, 4);
+            d.drain = Drain::Returns;
+        }
+        6 => {
+            d.mode = ModeKind::Max;
+            d.part = partition(1, frames, &cuts, r);
+            d.bps = some_bps(r);
+            d.bp_win = win(r, 4);
+        }
+        7 => {
+            d.step = StepKind::BreakAll;
+            d.step_win = win(r, 1);
+        }
+        8 => {
+            d.mode = ModeKind::Max;
+            d.part = partition(1, frames, &cuts, r);
+            d.step = StepKind::BreakAll;
+            d.step_win = win(r, 2);
+        }
+        9 => {
+            d.step = StepKind::Fc0;
+            d.step_win = win(r, 1);
+        }
+        10 => d.sound = false,
+        11 => {
+            d.sound_toggle = true;
+            d.drain = Drain::Never;
+        }
+        12 => {
+            d.part = partition(2, frames, &cuts, r);
+            d.drain = Drain::Every3;
+        }
+        13 => {
+            d.mode = ModeKind::Max;
+            d.part = partition(2, frames, &cuts, r);
+            d.drain = Drain::Every3;
+        }
+        14 => {
+            d.part = partition(3, frames, &cuts, r);
+            d.drain = Drain::Never;
+        }
+        15 => d.mix = 1,
+        16 => {
+            d.mix = 2;
+            d.part = partition(1, frames, &cuts, r);
+            d.drain = Drain::Never;
+        }
+        17 => {
+            d.mix = 3;
+            d.mode = ModeKind::Max;
+            d.sound = false;
+        }
+        t => {
+            d.deliv = match t {
+                18 => Deliv::VWhole,
+                19 => Deliv::Short { k: 1, z: false, seed: r.next() >> 40 },
+                20 => Deliv::Short { k: r.range(2, 7) as usize, z: false, seed: r.next() >> 40 },
+                21 => Deliv::Short { k: r.range(1, 200) as usize, z: true, seed: r.next() >> 40 },
+                22 => Deliv::Gzip,
+                23 => Deliv::File,
+                24 => Deliv::Short { k: 1, z: true, seed: r.next() >> 40 },
+                _ => Deliv::Short { k: r.range(100, 20000) as usize, z: r.bool(), seed: r.next() >> 40 },
+            };
+            match r.below(4) {
+                0 => {}
+                1 => d.part = partition(1, frames, &cuts, r),
+                2 => {
+                    d.mode = ModeKind::Max;
+                    d.part = partition(1, frames, &cuts, r);
+                }
+                _ => {
+                    d.mode = ModeKind::Mixed;
+                    d.part = partition(2, frames, &cuts, r);
+                    d.drain = Drain::Every3;
+                }
+            }
+        }
+    }
+    d
+}
+
+/// the reference driving once more, on another thread with a perturbed heap; any difference is a hidden input
+fn rerun_check(scn: &Scenario, frames: usize, first: Option<&RunOut>) -> Option<Diff> {
+    let d = Driving::reference(frames, Drain::Every);
+    let own;
+    let first = match first {
+        Some(f) => f,
+        None => {
+            own = run_driving(scn, &d);
+            &own
+        }
+    };
+    let scn2 = scn.clone();
+    let again = std::thread::spawn(move || {
+        let junk: Vec<Vec<u8>> = (0..37).map(|i| vec![i as u8; 1000 + 4099 * i]).collect();
+        let r = run_driving(&scn2, &d);
+        drop(junk);
+        r
+    })
+    .join()
+    .unwrap_or_default();
+    compare(first, &again, true)
+}
+
+fn report_rerun(rep: &mut Report, scn: &Scenario, frames: usize, diff: &Diff) {
+    rep.violation(Violation {
+        kind: Kind::SpecViolated,
+        key: format!("C16/{}/fc1-vs-fc1-rerun/{}", scn.name, diff.component),
+        what: format!(
+            "scenario {}: two runs of the same driving (one frame per call, {} frames; second run on another thread) differ in '{}' after {} frames: the emulation has an input besides its state and the host inputs",
+            scn.name, frames, diff.component, diff.k
+        ),
+        correspondence: "determinism (no hidden inputs), checked by running twice".into(),
+        case: J::obj(vec![("text", J::s(format!("rerun scn={} frames={}", scn.name, frames)))]),
+        implementation: diff.implementation.clone(),
+        expected: diff.expected.clone(),
+    });
+}
+
+fn metamorphic(o: &Opts, rep: &mut Report, rng: &mut Rng) {
+    let scns = scenarios();
+    let mut compared_audio = 0u64;
+    for scn in &scns {
+        let frames = if o.thorough() { scn.frames.1 } else { scn.frames.0 };
+        let t0 = std::time::Instant::now();
+        let mut refs = Refs { scn, cache: HashMap::new(), runs: 0 };
+        let base = refs.get(frames, Drain::Every, 0);
+        let t_ref = t0.elapsed().as_secs_f64();
+        if let (Some(e), true) = (&base.error, scn.name != "tape-trunc") {
+            rep.notes.push(format!("scenario {}: reference run ended with {}", scn.name, e));
+        }
+        rep.count("scenario_frames", format!("{}={}", scn.name, frames));
+        // pure determinism: the same driving again, on another thread, with a perturbed heap
+        rep.eval();
+        rep.class(format!("{}/fc1-vs-fc1(second run, other thread)", scn.name));
+        rep.count("pairs", format!("{}/rerun", scn.name));
+        if let Some(df) = rerun_check(scn, frames, Some(&base)) {
+            // as few frames as needed
+            let k = df.k.max(1).min(frames);
+            let df2 = if k < frames { rerun_check(scn, k, None) } else { None };
+            match df2 {
+                Some(d2) => report_rerun(rep, scn, k, &d2),
+                None => report_rerun(rep, scn, frames, &df),
+            }
+        }
+        let n = if o.thorough() { scn.weight as u64 * 6 } else { scn.weight as u64 };
+        for i in 0..n as usize {
+            // every template (driving class) is reached for every scenario in every run; parameters are seeded
+            let d = gen_driving(scn, frames, i, rng);
+            let (diff, x, audio) = check_pair(scn, &mut refs, &d);
+            rep.eval();
+            let class = d.class();
+            rep.class(format!("{}/fc1-vs-{}", scn.name, class));
+            rep.count("pairs", format!("{}/{}", scn.name, class));
+            rep.count("driving_dims", format!("mode={:?}", d.mode));
+            rep.count("driving_dims", format!("deliv={}", d.deliv.class()));
+            rep.count("driving_dims", format!("drain={:?}", d.drain));
+            rep.count("driving_dims", format!("audio_compared={}", audio));
+            rep.count_n("stop_reasons", "completed", x.stops[0]);
+            rep.count_n("stop_reasons", "timeout", x.stops[1]);
+            rep.count_n("stop_reasons", "breakpoint", x.stops[2]);
+            rep.count_n("stop_reasons", "breakpoint-on-the-frame-crossing-step", x.bp_at_boundary);
+            rep.count_n("boundaries_compared", scn.name, x.obs.len() as u64);
+            if audio {
+                compared_audio += 1;
+            }
+            if rep.samples.len() < 4 && i % 3 == 1 {
+                rep.sample(J::obj(vec![
+                    ("scenario", J::s(scn.name)),
+                    ("driving", J::s(d.text())),
+                    ("calls", J::I(x.calls as i64)),
+                    ("boundaries_compared", J::I(x.obs.len() as i64)),
+                    ("audio_compared", J::B(audio)),
+                    ("last", J::s(x.obs.last().map(|o| format!("k={} steps={} regs={:x} ram={:x} screen={:x} audio_n={}", o.k, o.steps, o.regs, o.ram, o.screen, o.audio_n)).unwrap_or_default())),
+                ]));
+            }
+            if let Some(df) = diff {
+                let key = format!("C16/{}/fc1-vs-{}/{}", scn.name, d.class(), df.component);
+                if rep.has_key(&key) {
+                    rep.count("repeat_violations", key);
+                } else {
+                    let (sd, sdf) = shrink(scn, &mut refs, d, df);
+                    report_violation(rep, scn, &sd, &sdf, "fc1");
+                }
+            }
+        }
+        // drain policy alone must not matter for the state
+        for pol in [Drain::Every3, Drain::Never] {
+            let d = Driving::reference(frames, pol);
+            let (diff, _, _) = check_pair(scn, &mut refs, &d);
+            rep.eval();
+            rep.class(format!("{}/fc1-vs-{}", scn.name, d.class()));
+            rep.count("pairs", format!("{}/{}", scn.name, d.class()));
+            if let Some(df) = diff {
+                let (sd, sdf) = shrink(scn, &mut refs, d, df);
+                report_violation(rep, scn, &sd, &sdf, "fc1");
+            }
+        }
+        rep.count_n("reference_runs", scn.name, refs.runs);
+        rep.extra.push((format!("wall_s_{}", scn.name), J::s(format!("ref {:.2} total {:.2}", t_ref, t0.elapsed().as_secs_f64()))));
+    }
+    rep.count_n("audio", "pairs_with_audio_compared", compared_audio);
+}
+
+fn small_checks(o: &Opts, rep: &mut Report, rng: &mut Rng, model: &mut Model) {
+    for _ in 0..o.n(300, 20_000) {
+        let tc = toy_gen(rng);
+        let out = toy_run(&tc, model);
+        rep.evaluations += tc.calls.len() as u64;
+        for c in &out.classes {
+            rep.class(c.clone());
+            rep.count("toy_calls", c.trim_start_matches("toy/").to_string());
+        }
+        if let Some(kind) = out.kind {
+            let tc = toy_shrink(tc, model);
+            let out2 = toy_run(&tc, model);
+            let (w, i, e) = if out2.kind.is_some() { (out2.what, out2.implementation, out2.expected) } else { (out.what, out.implementation, out.expected) };
+            rep.violation(Violation {
+                kind: out2.kind.unwrap_or(kind),
+                key: "C16/loop/emulate_frames-vs-model".into(),
+                what: w,
+                correspondence: "corr.C16.loop (emulate_frames on a fixed-timing program vs. Driving.run on the toy machine)".into(),
+                case: J::obj(vec![("text", J::s(tc.text()))]),
+                implementation: i,
+                expected: e,
+            });
+        }
+    }
+    for _ in 0..o.n(6_000, 400_000) {
+        let c = rx_gen(rng);
+        rx_one(&c, rep, model);
+    }
+    for _ in 0..o.n(1_500, 100_000) {
+        let c = seek_gen(rng);
+        seek_one(&c, rep, model);
+    }
+}
+
+/// loaders on damaged/odd files: every delivery must give the outcome and the (partially loaded) machine of the
+/// whole-buffer delivery. case text: `load m128=<0|1> kind=<0 sna|1 scr> cut=<len> deliv=<...>`
+fn loader_files(m128: bool, kind: u8) -> Vec<u8> {
+    let (code, _) = diag_program();
+    match (kind, m128) {
+        (0, false) => sna48(&code, 0x8000, 0x8000, 0xBD00, 0x5C3A, 21),
+        (0, true) => sna128(&code, 0x8000, 0x8000, 0xBD00, 0x5C3A, 23),
+        _ => Rng::new(77).bytes(6912),
+    }
+}
+
+fn loader_one(m128: bool, kind: u8, cut: usize, deliv: &Deliv, rep: &mut Report) {
+    let full = loader_files(m128, kind);
+    let mut file = full.clone();
+    if cut <= full.len() {
+        file.truncate(cut);
+    } else {
+        file.resize(cut, 0x5A);
+    }
+    rep.eval();
+    let base = load_only(m128, kind, &file, &Deliv::Whole);
+    let x = load_only(m128, kind, &file, deliv);
+    let class = format!(
+        "load/{}{}/{}/{}",
+        if kind == 0 { "sna" } else { "scr" },
+        if m128 { "128" } else { "48" },
+        if cut == full.len() { "intact" } else if cut < full.len() { "truncated" } else { "oversize" },
+        deliv.class()
+    );
+    rep.class(class.clone());
+    rep.count("loaders", class.trim_start_matches("load/").to_string());
+    if let (Ok(b), Ok(xx)) = (&base, &x) {
+        rep.count("loader_outcomes", b.0.clone());
+        if b != xx {
+            rep.violation(Violation {
+                kind: Kind::SpecViolated,
+                key: format!("C16/load/{}/{}", if kind == 0 { "sna" } else { "scr" }, deliv.class()),
+                what: "a loader gives a different outcome or leaves a different machine when the same file bytes arrive through another asset".into(),
+                correspondence: "loader_chunking_independent on the real loaders".into(),
+                case: J::obj(vec![("text", J::s(format!("load m128={} kind={} cut={} deliv={}", m128 as u8, kind, cut, deliv.text())))]),
+                implementation: format!("{} state {:x}", xx.0, xx.1),
+                expected: format!("{} state {:x}", b.0, b.1),
+            });
+        }
+    } else {
+        rep.notes.push(format!("loader check could not build its asset: {:?} {:?}", base.err(), x.err()));
+    }
+}
+
+fn loader_checks(o: &Opts, rep: &mut Report, rng: &mut Rng) {
+    for _ in 0..o.n(60, 3000) {
+        let m128 = rng.bool();
+        let kind = if rng.chance(1, 4) { 1 } else { 0 };
+        let len = loader_files(m128, kind).len();
+        let cut = match rng.below(5) {
+            0 => len,
+            1 => len + 1 + rng.below(40) as usize,
+            // a truncated 128K image must still be longer than a 48K image (otherwise it *is* a 48K image)
+            _ if kind == 0 && m128 => 49180 + rng.below((len - 49180) as u64) as usize,
+            _ => rng.below(len as u64) as usize,
+        };
+        let deliv = match rng.below(6) {
+            0 => Deliv::VWhole,
+            1 => Deliv::Short { k: 1, z: rng.bool(), seed: rng.next() >> 40 },
+            2 => Deliv::Short { k: rng.range(2, 300) as usize, z: rng.bool(), seed: rng.next() >> 40 },
+            3 => Deliv::Short { k: rng.range(300, 30000) as usize, z: rng.bool(), seed: rng.next() >> 40 },
+            4 => Deliv::Gzip,
+            _ => Deliv::File,
+        };
+        loader_one(m128, kind, cut, &deliv, rep);
+    }
+}
+
+fn toy_shrink(mut tc: ToyCase, model: &mut Model) -> ToyCase {
+    let fails = |t: &ToyCase, m: &mut Model| toy_run(t, m).kind.is_some();
+    // fewer calls, then shorter program, then simpler calls
+    loop {
+        let mut progressed = false;
+        for i in (0..tc.calls.len()).rev() {
+            if tc.calls.len() <= 1 {
+                break;
+            }
+            let mut c = tc.clone();
+            c.calls.remove(i);
+            if fails(&c, model) {
+                tc = c;
+                progressed = true;
+            }
+        }
+        for i in (0..tc.prog.len()).rev() {
+            if tc.prog.len() <= 1 {
+                break;
+            }
+            let mut c = tc.clone();
+            c.prog.remove(i);
+            for cl in c.calls.iter_mut() {
+                cl.bps.clear();
+            }
+            if fails(&c, model) {
+                tc = c;
+                progressed = true;
+            }
+        }
+        for i in 0..tc.calls.len() {
+            let mut c = tc.clone();
+            c.calls[i].bps.clear();
+            c.calls[i].bpall = false;
+            if c.calls[i].bps != tc.calls[i].bps || tc.calls[i].bpall {
+                if fails(&c, model) {
+                    tc = c;
+                    progressed = true;
+                }
+            }
+        }
+        if !progressed {
+            return tc;
+        }
+    }
+}
+
+fn rx_one(c: &RxCase, rep: &mut Report, model: &mut Model) {
+    let out = rx_run(c, model);
+    rep.eval();
+    if !out.class.is_empty() {
+        rep.class(out.class.clone());
+        rep.count("read_exact", out.class.trim_start_matches("rx/").to_string());
+    }
+    if let Some(kind) = out.kind {
+        // shrink: shorter data / fewer caps while it still fails
+        let mut best = c.clone();
+        let mut bout = out;
+        loop {
+            let mut cands: Vec<RxCase> = vec![];
+            if !best.caps.is_empty() {
+                let mut t = best.clone();
+                t.caps.pop();
+                cands.push(t);
+            }
+            if !best.data.is_empty() {
+                let mut t = best.clone();
+                t.data.pop();
+                cands.push(t);
+            }
+            if best.n > 0 {
+                let mut t = best.clone();
+                t.n -= 1;
+                cands.push(t);
+            }
+            if best.pos > 0 {
+                let mut t = best.clone();
+                t.pos -= 1;
+                cands.push(t);
+            }
+            let mut progressed = false;
+            for t in cands {
+                let o2 = rx_run(&t, model);
+                if o2.kind.is_some() {
+                    best = t;
+                    bout = o2;
+                    progressed = true;
+                    break;
+                }
+            }
+            if !progressed {
+                break;
+            }
+        }
+        rep.violation(Violation {
+            kind: bout.kind.unwrap_or(kind),
+            key: format!("C16/read_exact/{}", best.kind),
+            what: bout.what,
+            correspondence: "corr.C16.read_exact (LoadableAsset::read_exact over every asset implementation vs. Driving.readExact / readExactSpec)".into(),
+            case: J::obj(vec![("text", J::s(best.text()))]),
+            implementation: bout.implementation,
+            expected: bout.expected,
+        });
+    }
+}
+
+fn seek_one(c: &SeekCase, rep: &mut Report, model: &mut Model) {
+    let (class, bad) = seek_run(c, model);
+    rep.eval();
+    rep.class(class.clone());
+    rep.count("seek", class.trim_start_matches("seek/").to_string());
+    if let Some((kind, key, imp, exp)) = bad {
+        rep.violation(Violation {
+            kind,
+            key,
+            what: "seek result differs from the position arithmetic of the model".into(),
+            correspondence: "corr.C16.seek".into(),
+            case: J::obj(vec![("text", J::s(c.text()))]),
+            implementation: imp,
+            expected: exp,
+        });
+    }
+}
+
+fn replay(text: &str, rep: &mut Report, model: &mut Model) {
+    let text = text.trim();
+    if text.starts_with("meta ") {
+        let rest = &text[5..];
+        let (scn_tok, drv) = match rest.split_once(' ') {
+            Some(x) => x,
+            None => {
+                rep.notes.push("replay: malformed case".into());
+                return;
+            }
+        };
+        let name = scn_tok.trim_start_matches("scn=");
+        let scns = scenarios();
+        let scn = match scns.iter().find(|s| s.name == name) {
+            Some(s) => s,
+            None => {
+                rep.notes.push(format!("replay: unknown scenario {}", name));
+                return;
+            }
+        };
+        let d = match Driving::parse(drv) {
+            Some(d) => d,
+            None => {
+                rep.notes.push("replay: cannot parse the driving".into());
+                return;
+            }
+        };
+        let mut refs = Refs { scn, cache: HashMap::new(), runs: 0 };
+        let (diff, _, _) = check_pair(scn, &mut refs, &d);
+        rep.eval();
+        rep.class(format!("{}/fc1-vs-{}", scn.name, d.class()));
+        if let Some(df) = diff {
+            report_violation(rep, scn, &d, &df, "fc1");
+        }
+    } else if text.starts_with("rerun ") {
+        let mut name = "";
+        let mut frames = 0usize;
+        for tok in text.split_whitespace().skip(1) {
+            if let Some(v) = tok.strip_prefix("scn=") {
+                name = v;
+            } else if let Some(v) = tok.strip_prefix("frames=") {
+                frames = v.parse().unwrap_or(0);
+            }
+        }
+        let scns = scenarios();
+        match scns.iter().find(|s| s.name == name) {
+            Some(scn) if frames > 0 => {
+                rep.eval();
+                if let Some(df) = rerun_check(scn, frames, None) {
+                    report_rerun(rep, scn, frames, &df);
+                }
+            }
+            _ => rep.notes.push("replay: malformed rerun case".into()),
+        }
+    } else if text.starts_with("load ") {
+        let mut m128 = false;
+        let mut kind = 0u8;
+        let mut cut = 0usize;
+        let mut deliv = None;
+        for tok in text.split_whitespace().skip(1) {
+            if let Some((k, v)) = tok.split_once('=') {
+                match k {
+                    "m128" => m128 = v == "1",
+                    "kind" => kind = v.parse().unwrap_or(0),
+                    "cut" => cut = v.parse().unwrap_or(0),
+                    "deliv" => deliv = Deliv::parse(v),
+                    _ => {}
+                }
+            }
+        }
+        match deliv {
+            Some(d) => loader_one(m128, kind, cut, &d, rep),
+            None => rep.notes.push("replay: malformed load case".into()),
+        }
+    } else if text.starts_with("toy ") {
+        if let Some(tc) = ToyCase::parse(text) {
+            let out = toy_run(&tc, model);
+            rep.evaluations += tc.calls.len() as u64;
+            if let Some(kind) = out.kind {
+                rep.violation(Violation {
+                    kind,
+                    key: "C16/loop/emulate_frames-vs-model".into(),
+                    what: out.what,
+                    correspondence: "corr.C16.loop".into(),
+                    case: J::obj(vec![("text", J::s(tc.text()))]),
+                    implementation: out.implementation,
+                    expected: out.expected,
+                });
+            }
+        } else {
+            rep.notes.push("replay: cannot parse the toy case".into());
+        }
+    } else if text.starts_with("rx ") {
+        match RxCase::parse(text) {
+            Some(c) => rx_one(&c, rep, model),
+            None => rep.notes.push("replay: cannot parse the rx case".into()),
+        }
+    } else if text.starts_with("seek ") {
+        match SeekCase::parse(text) {
+            Some(c) => seek_one(&c, rep, model),
+            None => rep.notes.push("replay: cannot parse the seek case".into()),
+        }
+    } else {
+        rep.notes.push("replay: unknown case kind".into());
+    }
+}
+
+pub fn run(o: &Opts) -> Report {
     let mut rep = Report::new("C16");
-    rep.notes.push("not built yet".into());
+    rep.rule = "metamorphic on the real emulator: scenarios {48K/128K ROM boot with key script, hand-written \
+        diagnostic program (IM2, HALT, keyboard, contended screen writes, border/beeper, 7FFD paging, AY, floating bus) \
+        on 48K/128K loaded from SNA, tape load through the ROM with fast-load on/off} x drivings built from templates \
+        {FrameCount(n_i) partitions, Max with scripted stopwatch/limits, mixed, breakpoint sets in a frame window, \
+        break_all and FrameCount(0) single-stepping across frame boundaries, set_sound off/toggled, mixer configurations, \
+        drain every frame / every 3rd / never / at every return, asset delivery whole / VAsset / short reads 1..k with Err or Ok(0) at EOF / \
+        GzipAsset / FileAsset}; every driving is compared with the reference driving (FrameCount(1), one frame per call) at every \
+        frame boundary both reach: step count, frame clock, register hash, 64K peeks, 128K banks via SNA save, screen and border \
+        buffers, border/paging/INT, audio stream where both drain at the same boundaries; plus a second run of the reference on \
+        another thread. distinct = (scenario, driving class) pairs, loop-model call classes (mode, stop reason, breakpoint kind, at \
+        boundary), read_exact classes (asset kind, chunking kind, EOF kind), seek classes. Model ties: emulate_frames vs the Lean \
+        loop model on random fixed-timing programs (stop reason, steps, PC, frame clock, frames_count, stopwatch reads, duration); \
+        read_exact/seek of every asset implementation vs the Lean asset model and spec.".into();
+    rep.max_samples = 6;
+    let mut model = Model::spawn(&o.model, "C16");
+    if let Some(text) = &o.replay {
+        replay(text, &mut rep, &mut model);
+        return rep;
+    }
+    let mut rng = Rng::new(o.seed);
+    let t0 = std::time::Instant::now();
+    small_checks(o, &mut rep, &mut rng, &mut model);
+    loader_checks(o, &mut rep, &mut rng);
+    rep.extra.push(("wall_s_model_ties".into(), J::F(t0.elapsed().as_secs_f64())));
+    metamorphic(o, &mut rep, &mut rng);
+    let _ = std::fs::remove_dir("/tmp/determ");
     rep
 }
